@@ -29,7 +29,7 @@ MODEL_NMAX = {'quick': 512, 'thorough': 1024}   # the model's O(N^2) sum costs ~
 # independent references (no np.fft)
 # ------------------------------------------------------------------------------------------------
 
-PROP_MODULES = ['C06', 'C06Gen']
+PROP_MODULES = ['C06', 'C06Gen', 'C06Moments', 'C06GenMoments']
 
 def pad_to(x, N):
     xp = np.zeros(N, dtype=float)
@@ -866,6 +866,8 @@ _run_main2 = run
 def run(ctx):
     _run_main2(ctx)
     extras2(ctx)
+    import _freq2
+    _freq2.corr_freq2_c06(ctx)     # Fourier moments, Boore bandwidth, fas2signal: Model/FreqMoments (regenerated: Gen/FreqMoments) vs impl
     ctx.flush()
 
 
